@@ -29,6 +29,9 @@ def gen(tier, rng, shard, nshards):
             node = spread(node, 100.0 if depth == 0 else 12.0)  # (a wide spectrum: off-diagonal entries larger than diagonal ones)
         else:
             node = W.gen_invertible(rng, depth, dt, n, False, leaf_kinds=KINDS + ["Dense"], comps=COMPS)
+        if rng.random() < 0.15:
+            # operators in tiny / huge units (every explicitly valued leaf): the factorization scales with the operator
+            node = W.in_units(node, float(S.pick(rng, [1e-9, 1e-19, 1e12] if dt in ("f8", "c16") else [1e-9, 1e6])))
         if dt == "f8" and rng.random() < 0.2:
             node = intify(node, fn)  # integer-dtype Dense operands (cola's own docstrings build operators from integer arrays)
         yield {"spec": node, "fn": fn, "rebuilt": bool(rng.random() < 0.35)}
@@ -140,7 +143,8 @@ def evaluate(ctx, node, fn, rebuilt=False):
     n = ref.M.shape[0]
     A = B.build(node) if A is None else A
     cond = float(np.linalg.cond(ref.M))
-    tol = 2e3 * ref.eps * max(cond, 1.0) * n * max(np.abs(ref.M).max(), 1.0)
+    amax = float(np.abs(ref.M).max())
+    tol = 2e3 * ref.eps * max(cond, 1.0) * n * (max(amax, 1.0) if amax >= 1e-3 else amax)  # (relative to the operator's own scale)
     out = []
     if fn == "cholesky":
         L = ctx.call(cholesky, A)
